@@ -77,6 +77,8 @@ class Check:
         """the number of instances of a rule must not fall below what was counted by hand on the reference tree"""
         floors = json.load(open(FLOORS)) if os.path.exists(FLOORS) else {}
         k = '%s.%s' % (self.pid, floor_key or rule)
+        if self.tier != 'quick':
+            k += '@' + self.tier       # instance counts depend on the tier (more lengths / configurations)
         want = floors.get(k, {}).get('min')
         self.extra.setdefault('floors', {})[k] = dict(counted=counted, floor=want)
         if os.environ.get('VERIF_RECORD_FLOORS') == '1':
